@@ -89,7 +89,7 @@ func (area) Requires() string {
 }
 func (area) Check() string { return "check_case" }
 func (area) Rule() string {
-	return "histories of 10-40 BuildClient.Run iterations (quick) interleaved with executor steps (progress update / finish) between Runs, during Run's select and during the Synchronize RPC; scheduler replies execute(digest 0..3)/idle/no-change/RPC error/invalid timestamp/invalid execute request/unknown desired state; readiness failures 12%; clock advancing 0-30 s per Run with jumps past the one-minute grace and backwards; bursts of 9-13 updates to fill the 10-slot channel; shutdown at a random op in 70% of histories; non-trivial = at least one executor started, one executor stopped or completed, one failing reply or readiness failure; distinct by hash of the case term"
+	return "histories of 10-40 BuildClient.Run iterations (quick) interleaved with executor steps (progress update / finish) between Runs, during Run's select and during the Synchronize RPC; scheduler replies execute(digest 0..3)/idle/no-change/RPC error/invalid timestamp/invalid execute request/unknown desired state; readiness failures 12%; clock advancing 0-30 s per Run with jumps past the one-minute grace and backwards; bursts of 9-13 updates to fill the 10-slot channel; shutdown near the end in 70% of histories; 35% of histories end with an accepted idle reply, a delivered-but-locally-rejected reply (invalid timestamp / unknown desired state / invalid execute request), then shutdown (60%) and 1-3 further iterations; non-trivial = at least one executor started, one executor stopped or completed, one failing reply or readiness failure; distinct by hash of the case term"
 }
 
 // ---- generator ----------------------------------------------------------------
@@ -179,6 +179,35 @@ func (area) Generate(r *rng.R, thorough bool, index int) json.RawMessage {
 		}
 		o.Reply = rp
 		h.Ops = append(h.Ops, o)
+	}
+	if r.Chance(35) {
+		// A reply that is delivered but rejected locally (invalid timestamp,
+		// unknown desired state, invalid execute request), preceded by an
+		// accepted "idle" so that the scheduler-may-think-executing bound is
+		// gone, and followed by shutdown and/or further iterations.
+		now += int64(r.Intn(5000))
+		h.Ops = append(h.Ops, op{K: "run", Now: now, Ready: true, Reply: &replyOp{K: "idle", Ts: now + int64(r.Intn(3000))}})
+		now += int64(r.Intn(5000))
+		rp := &replyOp{Ts: now + int64(r.Intn(20000)), D: uint64(r.Intn(4))}
+		switch r.Intn(4) {
+		case 0:
+			rp.K, rp.BadTs = "exec", 1+r.Intn(2)
+		case 1:
+			rp.K = "unknown"
+		case 2:
+			rp.K, rp.Bad = "execbad", r.Intn(2)
+		default:
+			rp.K, rp.BadTs = "none", 1+r.Intn(2)
+		}
+		h.Ops = append(h.Ops, op{K: "run", Now: now, Ready: true, Reply: rp})
+		if r.Chance(60) {
+			h.Ops = append(h.Ops, op{K: "shutdown"})
+		}
+		for j, n := 0, 1+r.Intn(3); j < n; j++ {
+			now += int64(r.Intn(40000))
+			k := []string{"none", "err", "idle", "exec"}[r.Intn(4)]
+			h.Ops = append(h.Ops, op{K: "run", Now: now, Ready: !r.Chance(10), Reply: &replyOp{K: k, Ts: now + int64(r.Intn(20000)), D: uint64(r.Intn(4))}})
+		}
 	}
 	data, _ := json.Marshal(h)
 	return data
@@ -414,7 +443,18 @@ func (w *world) NewContextWithTimeout(parent context.Context, d time.Duration) (
 func (w *world) NewTicker(d time.Duration) (clock.Ticker, <-chan time.Time) { panic("unused") }
 
 func (w *world) NewTimer(d time.Duration) (clock.Timer, <-chan time.Time) {
-	w.log(g.App("OTimer", g.Z(int64(d/time.Millisecond))))
+	// The output is completed (did the timer or an update end the select)
+	// once the executor steps scheduled during the select have run; it keeps
+	// its place in front of their outputs.
+	w.mu.Lock()
+	pos := len(w.outs)
+	w.outs = append(w.outs, "")
+	w.mu.Unlock()
+	setOut := func(fired bool) {
+		w.mu.Lock()
+		w.outs[pos] = g.App("OTimer", g.Z(int64(d/time.Millisecond)), g.Bool(fired))
+		w.mu.Unlock()
+	}
 	avail := func() bool {
 		w.mu.Lock()
 		e := w.cur
@@ -432,8 +472,10 @@ func (w *world) NewTimer(d time.Duration) (clock.Timer, <-chan time.Time) {
 		w.selDone = append(w.selDone, w.doExecInRun(run.Sel)...)
 	}
 	if avail() {
+		setOut(false)
 		return fakeTimer{}, make(chan time.Time)
 	}
+	setOut(true)
 	ch := make(chan time.Time, 1)
 	ch <- w.now
 	w.info.Outs["timer-fired"]++
